@@ -40,6 +40,7 @@ type vc10Pool struct {
 	t     *vcTrial
 	ln    net.Listener
 	live  []*vc10Conn
+	fill  []*vc10Conn // live connections that only keep poller slots occupied
 	dead  []*vc10Conn
 	next  int
 	audit *vcAudit
@@ -160,12 +161,42 @@ func vcRunC10(t *vcTrial) {
 		for _, c := range pool.dead {
 			c.peer.Close()
 		}
+		for _, c := range pool.fill {
+			c.peer.Close()
+			if !t.Violated() {
+				c.conn.Close()
+			}
+		}
 	}()
 	for i := 0; i < r.rng(2, 5); i++ {
 		if pool.open() == nil {
 			return
 		}
 		hist = append(hist, "open")
+	}
+	// in part of the single-poller trials the operator cache is driven to exhaustion first (dozens
+	// of live connections): the next allocation has no free slot and must grow the cache - it may
+	// not take back slots that were freed during the batch that is still being dispatched
+	fillers := 0
+	if vfEnvInt("VERIF_LOOPS", 1) == 1 && r.chance(40) {
+		dp, _ := pollmanager.Pick().(*defaultPoll)
+		for dp != nil && fillers < 150 {
+			lock(&dp.opcache.locked)
+			empty := dp.opcache.first == nil
+			unlock(&dp.opcache.locked)
+			if empty {
+				break
+			}
+			vc := pool.open()
+			if vc == nil {
+				return
+			}
+			pool.live = pool.live[:len(pool.live)-1]
+			pool.fill = append(pool.fill, vc)
+			fillers++
+		}
+		hist = append(hist, fmt.Sprintf("fill-cache(%d)", fillers))
+		window = true
 	}
 	calls := vc12Calls()
 	staleCalls, reuses, fdReuses, windows := 0, 0, 0, 0
@@ -294,13 +325,14 @@ func vcRunC10(t *vcTrial) {
 		t.Violate("C10", "slot_ledger", "%s; history %v", msg, hist)
 	}
 	t.P("history_tail", hist[vcMaxInt(0, len(hist)-12):])
+	t.Stat("cache_exhausting_fillers", fillers)
 	t.Stat("stale_calls", staleCalls)
 	t.Stat("slot_reuses", reuses)
 	t.Stat("fd_number_reuses", fdReuses)
 	t.Stat("fetch_dispatch_windows_hit", windows)
 	t.Stat("ledger_events", len(pool.audit.ops))
 	t.Nontrivial = reuses > 0 || fdReuses > 0
-	t.Sig = fmt.Sprintf("hist|stale=%d|reuse=%v|fdreuse=%v|win=%v|ops=%d", vcMinInt(staleCalls, 5), reuses > 0, fdReuses > 0, windows > 0, len(hist)/8)
+	t.Sig = fmt.Sprintf("hist|stale=%d|reuse=%v|fdreuse=%v|win=%v|ops=%d|fill=%v", vcMinInt(staleCalls, 5), reuses > 0, fdReuses > 0, windows > 0, len(hist)/8, fillers > 0)
 }
 
 func (p *vc10Pool) sharesSlot(vc *vc10Conn) bool {
